@@ -451,6 +451,36 @@ def generate(repo):
             raise Untranslatable('polarization dispatch not recognised')
         return out
 
+    def batched_flags():
+        """texts that mean `the stack is batched`: the test itself, or a name bound exactly once to it"""
+        fn = stack_fn()
+        tests = {'angles.ndim>1', 'indices.ndim>1', 'thicknesses.ndim>1'}
+        out = set(tests)
+        for st in fn.body:
+            if isinstance(st, ast.Assign) and len(st.targets) == 1 and isinstance(st.targets[0], ast.Name) \
+                    and ast.unparse(st.value).replace(' ', '') in tests:
+                nm = st.targets[0].id
+                if sum(1 for x in ast.walk(fn) if isinstance(x, ast.Name) and x.id == nm and isinstance(x.ctx, ast.Store)) == 1:
+                    out.add(nm)
+        return out
+
+    def index_aliases():
+        """{name: 'last' | 'first'} for `name = (slice(None), k) if <batched> else k`, k in (-1, 0), bound exactly once"""
+        fn = stack_fn()
+        out = {}
+        for st in fn.body:
+            if isinstance(st, ast.Assign) and len(st.targets) == 1 and isinstance(st.targets[0], ast.Name) and isinstance(st.value, ast.IfExp):
+                nm, v = st.targets[0].id, st.value
+                if sum(1 for x in ast.walk(fn) if isinstance(x, ast.Name) and x.id == nm and isinstance(x.ctx, ast.Store)) != 1:
+                    continue
+                if ast.unparse(v.test).replace(' ', '') not in batched_flags():
+                    continue
+                for k, what in (('-1', 'last'), ('0', 'first')):
+                    if ast.unparse(v.body).replace(' ', '') in (f'(slice(None),{k})', f'(slice(None,None,None),{k})') \
+                            and ast.unparse(v.orelse).replace(' ', '') == k:
+                        out[nm] = what
+        return out
+
     def role(node, last_ok=False):
         """classify an argument expression of the pipeline: ambient / aoi / wavelength / layer-j column / last / first layer"""
         t = ast.unparse(node)
@@ -459,6 +489,8 @@ def generate(repo):
         if isinstance(node, ast.Subscript) and isinstance(node.value, ast.Name) and node.value.id in ('indices', 'thicknesses', 'angles'):
             idx = node.slice.elts if isinstance(node.slice, ast.Tuple) else [node.slice]
             idx = [ast.unparse(e) for e in idx]
+            if len(idx) == 1 and idx[0] in index_aliases():
+                return (node.value.id, index_aliases()[idx[0]])
             if idx in (['i'], [':', 'i']):
                 return (node.value.id, 'j')
             if idx in (['-1'], [':', '-1']):
@@ -476,7 +508,28 @@ def generate(repo):
             raise Untranslatable('the batched and the scalar call sites differ')
         return rs[0]
 
+    NORMALISATIONS = {'polarization': ('polarization.lower()', 'str.lower(polarization)'),
+                      'aoi': ('np.radians(aoi)', 'np.deg2rad(aoi)'),
+                      'stack': ('np.asarray(stack)', 'np.array(stack)', 'np.asanyarray(stack)')}
+
+    def params_not_rebound():
+        """the role-based call-site items read parameter NAMES; they are only meaningful if the parameters of
+        multilayer_stack_rt (wavelength, ambient_index, aoi, polarization, stack) still hold the caller's values there:
+        the only re-bindings accepted are the top-level normalisations (lower-casing, degrees -> radians, asarray)"""
+        fn = stack_fn()
+        params = [a.arg for a in fn.args.args]
+        for st in ast.walk(fn):
+            names = set()
+            if isinstance(st, (ast.Assign, ast.AugAssign, ast.AnnAssign, ast.For, ast.With, ast.NamedExpr)):
+                names = _stored_names(st) if not isinstance(st, ast.NamedExpr) else {st.target.id}
+            for nm in names & set(params):
+                ok = isinstance(st, ast.Assign) and st in fn.body and len(st.targets) == 1 and isinstance(st.targets[0], ast.Name) \
+                    and ast.unparse(st.value).replace(' ', '') in [t.replace(' ', '') for t in NORMALISATIONS.get(nm, ())]
+                if not ok:
+                    raise Untranslatable(f'parameter {nm} is re-bound / modified: {ast.unparse(st)[:60]}')
+
     def stack_snell():
+        params_not_rebound()
         fn = stack_fn()
         calls = find_calls(fn, 'snell_aor')
         r = same_roles(calls, ['n0', 'n1', 'theta', 'degrees'])
@@ -498,6 +551,7 @@ def generate(repo):
            'def stackSnellSin (n0 s0 nj : K) : K := snellSin n0 nj s0\ndef stackAoiConvertedOnce : Bool := true')
 
     def stack_layer():
+        params_not_rebound()
         al = dispatch_aliases()
         out = []
         for pol, cname, bname in (('s', 'charS', 'betaS'), ('p', 'charP', 'betaP')):
@@ -523,6 +577,7 @@ def generate(repo):
            'def stackLayerP (mI sinb cosb cost d n : K) : M22 K := charP mI sinb cosb cost n')
 
     def stack_amat():
+        params_not_rebound()
         al = dispatch_aliases()
         out = []
         for pol in ('s', 'p'):
@@ -627,13 +682,17 @@ def generate(repo):
         cols = set()
         lasts = set()
         for st in ast.walk(fn):
-            if isinstance(st, ast.If) and ast.unparse(st.test).replace(' ', '') == 'angles.ndim>1':
+            if isinstance(st, ast.If) and ast.unparse(st.test).replace(' ', '') in batched_flags() and st is not fl and st is not un:
                 for sub in st.body:
                     for n in ast.walk(sub):
                         if isinstance(n, ast.Subscript) and isinstance(n.value, ast.Name) and n.value.id in ('indices', 'thicknesses', 'angles') \
                                 and isinstance(n.slice, ast.Tuple):
                             idx = [ast.unparse(e).replace(' ', '') for e in n.slice.elts]
                             (lasts if '-1' in idx else cols).add(tuple(idx))
+        for nm, what in index_aliases().items():
+            if what == 'last' and any(isinstance(n, ast.Subscript) and isinstance(n.value, ast.Name) and n.value.id in ('indices', 'angles')
+                                      and ast.unparse(n.slice) == nm for n in ast.walk(fn)):
+                lasts.add((':', '-1'))          # the batched arm of the alias is (slice(None), -1)
         if cols == {(':', 'i')}:
             col = 'x b i'
         elif cols == {('i', ':')}:
@@ -648,7 +707,7 @@ def generate(repo):
             raise Untranslatable(f'batched last-layer selectors {sorted(lasts)}')
         # layer matrices (2, 2, B) -> (B, 2, 2)
         mj = [ast.unparse(st.value).replace(' ', '') for st in ast.walk(fn) if isinstance(st, ast.Assign) and ast.unparse(st.targets[0]) == 'Mjs'
-              and not isinstance(st.value, ast.List)]
+              and isinstance(st.value, ast.ListComp) and len(st.value.generators) == 1 and ast.unparse(st.value.generators[0].iter) == 'Mjs']
         if mj in (['[np.moveaxis(M,2,0)forMinMjs]'], ['[np.moveaxis(M,-1,0)forMinMjs]']):
             front = 'true'
         elif len(mj) == 1 and re.fullmatch(r'\[np\.moveaxis\(M,-?\d,-?\d\)forMinMjs\]', mj[0]):
@@ -729,6 +788,86 @@ def generate(repo):
                 return False
         return True
     g.fact('stackNoInPlaceOnCallerData', SSRC, no_inplace_on_inputs)
+
+    def module_pure():
+        """no function of thinfilm.py applies an in-place operator, an element / slice store, a mutating method or `out=` to a name
+        that DEFINITELY may alias the caller's data.  A name definitely-may-alias when it is a parameter whose every re-binding (if any)
+        is a view expression of a definitely-aliasing name (np.asarray(x), x.reshape, moveaxis, x[...], x.T ...), or a local ALL of whose
+        assignments are such view expressions.  False = in-place on such a name (mutates the caller's array for ndarray input).
+        In-place on a name that has SOME fresh (copying / arithmetic) binding, e.g. `theta = np.radians(theta); theta *= k`, is not
+        decidable without flow analysis: the fact is then untranslatable (None), never False."""
+        MUT = ('sort', 'fill', 'resize', 'itemset', 'put', 'partition', 'byteswap', 'setfield')
+        VIEWFN = ('np.asarray', 'np.asanyarray', 'np.moveaxis', 'np.swapaxes', 'np.transpose', 'np.reshape', 'np.ravel', 'np.squeeze',
+                  'np.atleast_1d', 'np.atleast_2d', 'np.broadcast_to', 'np.real', 'np.imag', 'np.expand_dims')
+        undecided = False
+        for fn in [n for n in ast.walk(tf) if isinstance(n, ast.FunctionDef)]:
+            params = {a.arg for a in fn.args.args + fn.args.kwonlyargs}
+            if fn.args.vararg:
+                params.add(fn.args.vararg.arg)
+
+            def base(e):
+                """the name an expression is a (possible) view of, None when it is certainly fresh or not understood"""
+                while isinstance(e, (ast.Subscript, ast.Attribute)):
+                    if isinstance(e, ast.Attribute) and e.attr not in ('T', 'real', 'imag', 'flat'):
+                        return None
+                    e = e.value
+                if isinstance(e, ast.Call):
+                    f = ast.unparse(e.func)
+                    if f in VIEWFN and e.args:
+                        return base(e.args[0])
+                    if isinstance(e.func, ast.Attribute) and e.func.attr in ('reshape', 'view', 'ravel', 'squeeze', 'transpose', 'swapaxes'):
+                        return base(e.func.value)
+                    return None
+                return e.id if isinstance(e, ast.Name) else None
+
+            def target_base(t):
+                while isinstance(t, (ast.Subscript, ast.Attribute)):
+                    t = t.value
+                return t.id if isinstance(t, ast.Name) else None
+            binds = {}          # name -> list of value nodes (None for a binding the analysis cannot read: for / with / tuple targets ...)
+            for st in ast.walk(fn):
+                if isinstance(st, ast.Assign):
+                    for t in st.targets:
+                        if isinstance(t, ast.Name):
+                            binds.setdefault(t.id, []).append(st.value)
+                        elif isinstance(t, (ast.Tuple, ast.List)):
+                            for e in t.elts:
+                                if isinstance(e, ast.Name):
+                                    binds.setdefault(e.id, []).append(None)
+                elif isinstance(st, (ast.For, ast.comprehension)):
+                    for nm in [n.id for n in ast.walk(st.target) if isinstance(n, ast.Name)]:
+                        binds.setdefault(nm, []).append(None)
+                elif isinstance(st, ast.AnnAssign) and isinstance(st.target, ast.Name):
+                    binds.setdefault(st.target.id, []).append(st.value)
+            definite = {p_ for p_ in params if p_ not in binds}
+            maybe = set(params)                       # may alias on SOME path
+            for _ in range(6):
+                for nm, vals in binds.items():
+                    bs = [base(v) if v is not None else None for v in vals]
+                    if all(b is not None and (b in definite or b == nm) for b in bs) and (nm in params or any(b != nm for b in bs)):
+                        definite.add(nm)
+                    if nm in params or any(b is not None and b in maybe for b in bs):
+                        maybe.add(nm)
+            hits = []
+            for st in ast.walk(fn):
+                if isinstance(st, ast.AugAssign):
+                    hits.append(target_base(st.target))
+                if isinstance(st, ast.Assign):
+                    for t in st.targets:
+                        for tt in (t.elts if isinstance(t, (ast.Tuple, ast.List)) else [t]):
+                            if isinstance(tt, ast.Subscript):
+                                hits.append(target_base(tt))
+                if isinstance(st, ast.Call) and isinstance(st.func, ast.Attribute) and st.func.attr in MUT:
+                    hits.append(target_base(st.func.value))
+                if isinstance(st, ast.Call):
+                    hits += [target_base(k.value) for k in st.keywords if k.arg == 'out']
+            for h in hits:
+                if h in definite:
+                    return False
+                if h in maybe:
+                    undecided = True
+        return None if undecided else True
+    g.fact('thinfilmNoInPlaceOnParameters', 'prysm/thinfilm.py:(whole module)', module_pure)
 
     return g.finish()
 
